@@ -243,6 +243,25 @@ def adapter_history(rng):
             for nme in order]
 
 
+def typed_scalar_history(rng):
+    """the same call with a size / option that compares equal but has another type - in both orders (int first, bool first, float
+    in between): every call is treated as if it were the first"""
+    x = np.arange(6).reshape(1, 6) if rng.random() < 0.5 else np.arange(6).reshape(6, 1)
+    which = rng.choice(["size", "shift"])
+    vals = [("int", 1), ("bool", True), ("float", 1.0), ("npint", 1)]
+    rng.shuffle(vals)
+    vals = vals + [vals[0]]
+    out = []
+    for kind, v in vals:
+        if which == "size":
+            desc = "(a b) c -> a b c" if x.shape[0] == 1 else "c (a b) -> c a b"
+            out.append({"fn": "id", "desc": desc, "args": [("arr", x.tolist(), str(x.dtype))], "kwargs": {"a": (kind, v)}, "graph": False, "backend": None, "blocks": []})
+        else:
+            out.append({"fn": "roll", "desc": "a [b]", "args": [("arr", x.tolist(), str(x.dtype))], "kwargs": {"shift": (kind, v)}, "graph": rng.random() < 0.5,
+                        "backend": None, "blocks": []})
+    return out
+
+
 def gen_history(rng):
     base = [gencalls.gen_call(rng) for _ in range(rng.randint(2, 4))]
     h = []
@@ -318,6 +337,7 @@ def run(ctx):
     n = 22 if ctx.tier == "quick" else 220
     hs = [gen_history(ctx.rng)[: (14 if ctx.tier == "quick" else 30)] for _ in range(n)]
     hs += [adapter_history(ctx.rng) for _ in range(3 if ctx.tier == "quick" else 40)]
+    hs += [typed_scalar_history(ctx.rng) for _ in range(4 if ctx.tier == "quick" else 40)]
     keys = {}
 
     def alone(sp):
